@@ -320,7 +320,8 @@ def boundary_inputs(ents, rng, auto):
 
     def points(name):
         if name not in coregen.RANGES:
-            return list(allkinds) + [coregen.vstr(""), coregen.vstr("ab"), coregen.vstr("\u00e9\u00e9")]
+            return list(allkinds) + [coregen.vstr(""), coregen.vstr("ab"), coregen.vstr("\u00e9\u00e9"), coregen.vstr("a" * 63 + "\u00e9" + "b"),
+                                     coregen.vstr("a" * 62 + "\u20ac" + "b"), coregen.vstr("\u00e9" * 40), coregen.vstr("x" * 300)]
         lo, hi = coregen.RANGES[name]
         xs = {lo, lo + 1, hi, hi - 1, 0, -1, 1, 2**63 - 1, 2**63, 2**64 - 1, -2**63, 2**31, 2**32, 255, 256, 127, 128, -128, -129}
         xs |= {lo - 1, hi + 1}
